@@ -15,6 +15,7 @@ pub mod c13;
 pub mod c14;
 pub mod c15;
 pub mod c16;
+pub mod c17;
 pub mod c18;
 
 #[derive(Clone, Copy, Debug, PartialEq)]
@@ -91,6 +92,7 @@ pub fn lookup(id: &str) -> Option<Box<dyn Prop>> {
         "C14" => Some(Box::new(c14::C14)),
         "C15" => Some(Box::new(c15::C15)),
         "C16" => Some(Box::new(c16::C16)),
+        "C17" => Some(Box::new(c17::C17)),
         "C19" => Some(Box::new(c16::C19)),
         "C18" => Some(Box::new(c18::C18)),
         _ => None,
